@@ -354,6 +354,25 @@ func (x *Exec) localByName(st *State, fr *Frame, name string) (Val, bool) {
 	return x.load(st, fr.vals[a], et), true
 }
 
+// localAddrByName: address and type of a heap-mode local variable.
+func (x *Exec) localAddrByName(st *State, fr *Frame, name string) (string, types.Type, bool) {
+	for f := st.top; f != nil; f = f.parent {
+		if f.id == fr.id {
+			fr = f
+		}
+	}
+	for _, b := range fr.fn.Blocks {
+		for _, in := range b.Instrs {
+			if a, ok := in.(*ssa.Alloc); ok && a.Comment == name && !x.isLocalMode(a) {
+				if v, have := fr.vals[a]; have {
+					return v.S, a.Type().Underlying().(*types.Pointer).Elem(), true
+				}
+			}
+		}
+	}
+	return "", nil, false
+}
+
 // ---------- running ----------
 
 type runCtx struct {
@@ -905,6 +924,17 @@ func (x *Exec) checkVariant(st *State, fr *Frame, l *Loop, lc *LoopContract) {
 		return // termination is part of the safety behaviour
 	}
 	old := fr.loopVar[l.Ordinal]
+	if rg := mapRangeOf(l); rg != nil && len(lc.Decreases) == 0 {
+		// a range over a finite map visits each key once; the loop terminates if the map is not written in the body
+		for b := range l.Blocks {
+			for _, in := range b.Instrs {
+				if mu, ok := in.(*ssa.MapUpdate); ok && mu.Map == rg.X {
+					x.emit(st, "DECREASES", fmt.Sprintf("loop%d.mapwrite", l.Ordinal), "false", "the ranged-over map is written inside the loop")
+				}
+			}
+		}
+		return
+	}
 	if len(lc.Decreases) == 0 || len(old) == 0 {
 		x.emit(st, "DECREASES", fmt.Sprintf("loop%d.missing", l.Ordinal), "false", "loop has no decreases clause")
 		return
@@ -1032,6 +1062,11 @@ func (x *Exec) havocLoop(st *State, fr *Frame, l *Loop, lc *LoopContract) {
 			}
 		}
 	}
+	// map iterators advanced in the loop
+	if rg := mapRangeOf(l); rg != nil && st.iters != nil && st.iters[rg] != "" {
+		mt := rg.X.Type().Underlying().(*types.Map)
+		st.iters[rg] = x.g.fresh("visited", fmt.Sprintf("(Array %s Bool)", x.w.sortOf(mt.Key())))
+	}
 	// local cells
 	var as []*ssa.Alloc
 	for a := range cells {
@@ -1126,10 +1161,10 @@ func (x *Exec) compsOfType(t types.Type, out map[string]bool) {
 	case *types.Array:
 		x.compsOfType(u.Elem(), out)
 	default:
-		s := x.w.sortOf(t)
-		name := compName(s)
+		key := x.w.compKey(t)
+		name := compName(key)
 		if _, ok := x.w.compSorts[name]; !ok {
-			x.w.compSorts[name] = s
+			x.w.compSorts[name] = compValueSort(key)
 		}
 		out[name] = true
 	}
@@ -1314,7 +1349,7 @@ func (x *Exec) zeroInit(st *State, a string, t types.Type) {
 	case *types.Array:
 		x.zeroRange(st, a, u.Elem())
 	default:
-		_, cur := x.w.comp(st, x.w.sortOf(t))
+		_, cur := x.w.comp(st, x.w.compKey(t))
 		st.assume(app("=", app("select", cur, a), x.w.zero(t)))
 	}
 }
@@ -1333,7 +1368,7 @@ func (x *Exec) zeroRange(st *State, a string, et types.Type) {
 		case *types.Array:
 			unsup("nested arrays")
 		default:
-			_, cur := x.w.comp(st, x.w.sortOf(t))
+			_, cur := x.w.comp(st, x.w.compKey(t))
 			st.assume(fmt.Sprintf("(forall ((%s Int)) (! (= (select %s %s) %s) :pattern ((select %s %s))))", k, cur, addr, x.w.zero(t), cur, addr))
 		}
 	}
@@ -1393,6 +1428,7 @@ func (x *Exec) readGlobal(st *State, g *ssa.Global) Val {
 	v := x.globalValue(st, full, t)
 	if v.Sort == "Iface" {
 		st.assume(snot(app("=", v.S, "inil")))
+		st.assume(app("sentinel", v.S))
 	}
 	return v
 }
@@ -1553,20 +1589,17 @@ func (x *Exec) convert(st *State, n *ssa.Convert) {
 		st.assume(app("=", s, app("chr", v.S)))
 		fr.vals[n] = Val{S: s, Sort: "Str", T: n.Type()}
 	case tok && tb.Info()&types.IsString != 0:
-		// string([]byte)
+		// string([]byte): a function of the byte cells (so that two conversions of the same bytes are equal)
 		if sl, ok := from.(*types.Slice); ok && isByte(sl.Elem()) {
-			s := x.g.fresh("bstr", "Str")
-			_, cur := x.w.comp(st, "Int")
-			st.assume(app("=", app("len", s), app("slen", v.S)))
-			st.assume(fmt.Sprintf("(forall ((k!c Int)) (! (=> (and (<= 0 k!c) (< k!c (slen %s))) (= (at %s k!c) (select %s (selem %s k!c)))) :pattern ((at %s k!c))))", v.S, s, cur, v.S, s))
-			fr.vals[n] = Val{S: s, Sort: "Str", T: n.Type()}
+			_, cur := x.w.comp(st, "Int:uint8")
+			fr.vals[n] = Val{S: app("bytes2str", cur, v.S), Sort: "Str", T: n.Type()}
 			return
 		}
 		if sl, ok := from.(*types.Slice); ok {
 			if eb, isB := sl.Elem().Underlying().(*types.Basic); isB && eb.Kind() == types.Int32 {
 				// string([]rune): UTF-8 encoding; exact for ASCII runes
 				s := x.g.fresh("rstr", "Str")
-				_, cur := x.w.comp(st, "Int")
+				_, cur := x.w.comp(st, "Int:int32")
 				st.assume(app(">=", app("len", s), app("slen", v.S)))
 				st.assume(app("<=", app("len", s), app("*", "4", app("slen", v.S))))
 				ascii := fmt.Sprintf("(forall ((k!c Int)) (=> (and (<= 0 k!c) (< k!c (slen %s))) (and (<= 0 (select %s (selem %s k!c))) (< (select %s (selem %s k!c)) 128))))", v.S, cur, v.S, cur, v.S)
@@ -1580,7 +1613,7 @@ func (x *Exec) convert(st *State, n *ssa.Convert) {
 	case fok && fb.Info()&types.IsString != 0:
 		if sl, ok := to.(*types.Slice); ok && isByte(sl.Elem()) {
 			a := x.allocObj(st)
-			_, cur := x.w.comp(st, "Int")
+			_, cur := x.w.comp(st, "Int:uint8")
 			st.assume(fmt.Sprintf("(forall ((k!c Int)) (! (=> (and (<= 0 k!c) (< k!c (len %s))) (= (select %s (idx %s k!c)) (at %s k!c))) :pattern ((select %s (idx %s k!c)))))", v.S, cur, a, v.S, cur, a))
 			fr.vals[n] = Val{S: app("mk_slice", a, "0", app("len", v.S), app("len", v.S)), Sort: "Slice", T: n.Type()}
 			return
@@ -1781,16 +1814,65 @@ func (x *Exec) runDefers(st *State) {
 	fr.defers = nil
 }
 
-// map range: iterator carries the set of visited keys
+// map range: the iterator carries the set of visited keys; Next yields an arbitrary unvisited key (the iteration
+// order of a Go map is unspecified, so code that depends on it cannot be proved)
 func (x *Exec) rangeInit(st *State, n *ssa.Range) {
 	fr := st.top
 	v := x.val(st, n.X)
-	if _, ok := n.X.Type().Underlying().(*types.Map); !ok {
+	mt, ok := n.X.Type().Underlying().(*types.Map)
+	if !ok {
 		unsup("range over %s", n.X.Type())
 	}
 	fr.vals[n] = Val{S: v.S, Sort: "Addr", T: n.X.Type()}
+	if st.iters == nil {
+		st.iters = map[ssa.Value]string{}
+	}
+	st.iters[n] = fmt.Sprintf("((as const (Array %s Bool)) false)", x.w.sortOf(mt.Key()))
 }
 
 func (x *Exec) rangeNext(st *State, n *ssa.Next) {
-	unsup("map/string range iteration needs a loop contract with visited-set support")
+	fr := st.top
+	if n.IsString {
+		unsup("range over a string")
+	}
+	rg, ok := n.Iter.(*ssa.Range)
+	if !ok {
+		unsup("next on unknown iterator")
+	}
+	m := x.val(st, rg)
+	mt := rg.X.Type().Underlying().(*types.Map)
+	dom, val := x.mapComps(st, mt)
+	vis := st.iters[rg]
+	if vis == "" {
+		unsup("map iterator state lost")
+	}
+	ks, vs := x.w.sortOf(mt.Key()), x.w.sortOf(mt.Elem())
+	okc := x.g.fresh("rangeok", "Bool")
+	k := x.g.fresh("rangekey", ks)
+	v := x.g.fresh("rangeval", vs)
+	mdom := site(app("=", m.S, "anil"), fmt.Sprintf("((as const (Array %s Bool)) false)", ks), app("select", dom, m.S))
+	st.assume(app("=>", okc, sand(app("select", mdom, k), snot(app("select", vis, k)), app("=", v, app("select", app("select", val, m.S), k)))))
+	st.assume(app("=>", snot(okc), fmt.Sprintf("(forall ((q!r %s)) (! (=> (select %s q!r) (select %s q!r)) :pattern ((select %s q!r))))", ks, mdom, vis, vis)))
+	for _, f := range x.w.typeFacts(k, mt.Key()) {
+		st.assume(f)
+	}
+	for _, f := range x.w.typeFacts(v, mt.Elem()) {
+		st.assume(f)
+	}
+	st.iters[rg] = site(okc, app("store", vis, k, "true"), vis)
+	fr.vals[n] = Val{Tuple: []Val{{S: okc, Sort: "Bool", T: types.Typ[types.Bool]}, {S: k, Sort: ks, T: mt.Key()}, {S: v, Sort: vs, T: mt.Elem()}}, Sort: "Tuple", T: n.Type()}
+}
+
+// mapRangeOf returns the map Range whose Next is the loop's exit test, if any.
+func mapRangeOf(l *Loop) *ssa.Range {
+	for b := range l.Blocks {
+		for _, in := range b.Instrs {
+			if nx, ok := in.(*ssa.Next); ok && !nx.IsString {
+				if rg, ok2 := nx.Iter.(*ssa.Range); ok2 {
+					return rg
+				}
+			}
+		}
+	}
+	return nil
 }
